@@ -26,4 +26,18 @@ PROPS = {
         "theorems": ["offset_exact_or_overflow", "durationSince_exact_or_overflow", "ext_eq_by_value"],
         "assumptions": ["extension values are read from the Debug form of the private structs (Decimal{value}, IPAddr{addr,prefix}, DateTime{epoch}, Duration{ms})"],
     },
+    "C08": {
+        "streams": [("c08", 1200, 300000)],
+        "definitional": False,
+        "rule": "(a) random histories of 1-12 operations (add, add_static, add_template, link, unlink, remove_static, remove_template, merge with/without "
+                "renaming, add of a template-linked policy) with ids from a pool of 5 (incl. policy0/policy1, the ids merge generates) over two registers, through "
+                "cedar_policy_core::ast::PolicySet and the public cedar_policy::PolicySet; templates with every ==/in/is..in slot form, exact/missing/extra bindings; "
+                "after each op: ok/error kind, renaming, sorted listing from policies()/templates()/get_linked_policies(), authorization on 2 requests. "
+                "(b) linked policy vs Rust parse of the textually substituted static policy on random worlds. (c) all histories of length <=2 (quick) / <=3 (thorough) "
+                "over 2 ids and a 38-letter op alphabet, merge partner fixed. non-trivial = history with >=1 failed op and >=1 successful link, or a linkeq case; "
+                "distinct by request text",
+        "theorems": ["link_eq_subst", "link_ok_iff", "op_inv", "op_fail_unchanged", "no_panic", "history_inv", "authorize_considers_exactly_links"],
+        "assumptions": ["merge_policyset is covered by the correspondence and the harness oracle only (its invariant/refinement theorems are stated, not proved)",
+                        "source locations and the lossless (text/EST/PST) copies kept by the API layer are not modelled"],
+    },
 }
